@@ -869,3 +869,252 @@ def inline_simple_generators(trees: Dict[str, ast.Module]) -> List[str]:
         T().visit(tree)
         tree.body = [st for st in tree.body if not (isinstance(st, ast.FunctionDef) and st.name in gens)]
     return applied
+
+
+# ---------------------------------------------------------------------------------------------------- return a if c else b
+def split_conditional_returns(trees: Dict[str, ast.Module]) -> List[str]:
+    """``return A if c else B`` is ``if c: return A`` / ``else: return B``; analyses that look at the returned expressions
+    per return statement see the two returns."""
+    applied: List[str] = []
+
+    class T(ast.NodeTransformer):
+        def __init__(self, mod):
+            self.mod = mod
+
+        def visit_Return(self, node: ast.Return):
+            v = node.value
+            if isinstance(v, ast.IfExp):
+                a = self.visit_Return(ast.copy_location(ast.Return(value=v.body), node))
+                b = self.visit_Return(ast.copy_location(ast.Return(value=v.orelse), node))
+                new = ast.If(test=v.test, body=a if isinstance(a, list) else [a], orelse=b if isinstance(b, list) else [b])
+                ast.copy_location(new, node)
+                ast.fix_missing_locations(new)
+                applied.append(f"{self.mod}:{node.lineno} conditional return split")
+                return new
+            return node
+
+    for mod, tree in trees.items():
+        T(mod).visit(tree)
+    return applied
+
+
+# ---------------------------------------------------------------------------------------------------- t = torch.f(); t.L ... t.info
+TORCH_RESULT_FIELDS = {"cholesky_ex": ("L", "info"), "eigh": ("eigenvalues", "eigenvectors"), "qr": ("Q", "R"),
+                       "slogdet": ("sign", "logabsdet"), "sort": ("values", "indices"), "topk": ("values", "indices"),
+                       "inv_ex": ("inverse", "info")}
+
+
+def destructure_named_results(trees: Dict[str, ast.Module]) -> List[str]:
+    """``t = torch.linalg.cholesky_ex(...)`` whose every later read is a field (``t.L``, ``t.info``) or a constant index
+    (``t[0]``, ``t[1]``) is the tuple assignment ``t__L, t__info = ...`` with the reads replaced by the two names."""
+    applied: List[str] = []
+    for mod, tree in trees.items():
+        for fn in [n for n in ast.walk(tree) if isinstance(n, ast.FunctionDef)]:
+            cands: Dict[str, Tuple[str, ...]] = {}
+            bad: set = set()
+            for n in _own_nodes(fn):
+                if isinstance(n, ast.Assign) and len(n.targets) == 1 and isinstance(n.targets[0], ast.Name) and isinstance(n.value, ast.Call):
+                    f = n.value.func
+                    leaf = f.attr if isinstance(f, ast.Attribute) else None
+                    root = f
+                    while isinstance(root, ast.Attribute):
+                        root = root.value
+                    if leaf in TORCH_RESULT_FIELDS and isinstance(root, ast.Name) and root.id == "torch":
+                        t = n.targets[0].id
+                        if t in cands and cands[t] != TORCH_RESULT_FIELDS[leaf]:
+                            bad.add(t)
+                        cands[t] = TORCH_RESULT_FIELDS[leaf]
+                        continue
+                for t_ in ([n.target] if isinstance(n, (ast.AugAssign, ast.AnnAssign, ast.For)) else (n.targets if isinstance(n, ast.Assign) else [])):
+                    for x in ast.walk(t_):
+                        if isinstance(x, ast.Name) and isinstance(x.ctx, ast.Store):
+                            bad.add(x.id)  # bound by something else as well
+            cands = {k: v for k, v in cands.items() if k not in bad}
+            if not cands:
+                continue
+            # every load must be a field / constant-index read
+            parent_ok: Dict[int, bool] = {}
+            for n in _own_nodes(fn):
+                if isinstance(n, ast.Attribute) and isinstance(n.value, ast.Name) and n.value.id in cands and n.attr in cands[n.value.id]:
+                    parent_ok[id(n.value)] = True
+                if isinstance(n, ast.Subscript) and isinstance(n.value, ast.Name) and n.value.id in cands and isinstance(n.slice, ast.Constant) \
+                        and isinstance(n.slice.value, int) and 0 <= n.slice.value < len(cands[n.value.id]) and isinstance(n.ctx, ast.Load):
+                    parent_ok[id(n.value)] = True
+            for n in _own_nodes(fn):
+                if isinstance(n, ast.Name) and n.id in cands and isinstance(n.ctx, ast.Load) and not parent_ok.get(id(n)):
+                    cands.pop(n.id, None)
+            # nested functions reading the name: leave alone
+            for n in ast.walk(fn):
+                if isinstance(n, (ast.FunctionDef, ast.Lambda)) and n is not fn:
+                    for x in ast.walk(n):
+                        if isinstance(x, ast.Name) and x.id in cands:
+                            cands.pop(x.id, None)
+            if not cands:
+                continue
+
+            class R(ast.NodeTransformer):
+                def visit_FunctionDef(self, node):
+                    if node is not fn:
+                        return node
+                    self.generic_visit(node)
+                    return node
+
+                def visit_Attribute(self, node: ast.Attribute):
+                    if isinstance(node.value, ast.Name) and node.value.id in cands and node.attr in cands[node.value.id]:
+                        return ast.copy_location(ast.Name(id=f"{node.value.id}__{node.attr}", ctx=node.ctx), node)
+                    self.generic_visit(node)
+                    return node
+
+                def visit_Subscript(self, node: ast.Subscript):
+                    if isinstance(node.value, ast.Name) and node.value.id in cands and isinstance(node.slice, ast.Constant) \
+                            and isinstance(node.slice.value, int) and isinstance(node.ctx, ast.Load):
+                        fld = cands[node.value.id][node.slice.value]
+                        return ast.copy_location(ast.Name(id=f"{node.value.id}__{fld}", ctx=ast.Load()), node)
+                    self.generic_visit(node)
+                    return node
+
+                def visit_Assign(self, node: ast.Assign):
+                    self.generic_visit(node)
+                    if len(node.targets) == 1 and isinstance(node.targets[0], ast.Name) and node.targets[0].id in cands \
+                            and isinstance(node.value, ast.Call):
+                        t = node.targets[0].id
+                        node.targets = [ast.Tuple(elts=[ast.Name(id=f"{t}__{f_}", ctx=ast.Store()) for f_ in cands[t]], ctx=ast.Store())]
+                        ast.fix_missing_locations(node)
+                    return node
+
+            R().visit(fn)
+            ast.fix_missing_locations(fn)
+            for t in cands:
+                applied.append(f"{mod}:{fn.name}: named result `{t}` read through its fields is a tuple assignment")
+    return applied
+
+
+# ---------------------------------------------------------------------------------------------------- per-entry generator scopes
+def expand_generator_scopes(trees: Dict[str, ast.Module]) -> List[str]:
+    """A context class that keeps its per-entry snapshot in a suspended ``@contextmanager`` generator of its own::
+
+        @contextlib.contextmanager
+        def _scope(self):                      def __enter__(self):                 def __exit__(self, *args):
+            prev = <capture>; <write>              scope = self._scope()                self._open.pop().__exit__(None, None, None)
+            yield                                  self._open.append(scope)
+            <restore from prev>                    scope.__enter__()
+
+    is the explicit stack protocol written with generator frames: entering runs the part before the ``yield``, the frame holds
+    the captured locals, ``__exit__(None, None, None)`` resumes it normally.  It is rewritten into that protocol - the part
+    before the yield in place of ``scope.__enter__()`` followed by a push of the captured locals, the pop and the part after
+    the yield in place of the resumption - which is what the typestate analysis models."""
+    applied: List[str] = []
+    for mod, tree in trees.items():
+        for cls in [n for n in ast.walk(tree) if isinstance(n, ast.ClassDef)]:
+            gens: Dict[str, Tuple[List[ast.stmt], List[ast.stmt]]] = {}
+            for f in cls.body:
+                if not (isinstance(f, ast.FunctionDef) and any((isinstance(d, ast.Attribute) and d.attr == "contextmanager") or (
+                        isinstance(d, ast.Name) and d.id == "contextmanager") for d in f.decorator_list)):
+                    continue
+                body = [s for s in f.body if not (isinstance(s, ast.Expr) and isinstance(s.value, ast.Constant))]
+                ys = [i for i, s in enumerate(body) if isinstance(s, ast.Expr) and isinstance(s.value, ast.Yield) and s.value.value is None]
+                inner = [n for s in body for n in ast.walk(s) if isinstance(n, (ast.Yield, ast.YieldFrom, ast.Try, ast.Return, ast.FunctionDef))]
+                if len(ys) != 1 or len([n for n in inner if isinstance(n, ast.Yield)]) != 1 or any(not isinstance(n, ast.Yield) for n in inner):
+                    continue
+                if len(f.args.args) != 1 or f.args.vararg or f.args.kwarg:
+                    continue
+                gens[f.name] = (body[:ys[0]], body[ys[0] + 1:])
+            if not gens:
+                continue
+
+            def stores(stmts):
+                return {x.id for s in stmts for x in ast.walk(s) if isinstance(x, ast.Name) and isinstance(x.ctx, ast.Store)}
+
+            def live_of(pre, post):
+                stored_first = set()
+                live = []
+                seen_load = set()
+                for s in post:
+                    for x in ast.walk(s.value if isinstance(s, ast.Assign) else s):
+                        if isinstance(x, ast.Name) and isinstance(x.ctx, ast.Load):
+                            seen_load.add(x.id)
+                    if isinstance(s, ast.Assign):
+                        for t in s.targets:
+                            if isinstance(t, ast.Name) and t.id not in seen_load:
+                                stored_first.add(t.id)
+                pre_st = stores(pre)
+                for s in post:
+                    for x in ast.walk(s):
+                        if isinstance(x, ast.Name) and isinstance(x.ctx, ast.Load) and x.id in pre_st and x.id not in stored_first \
+                                and x.id not in live:
+                            live.append(x.id)
+                return live
+
+            for f in cls.body:
+                if not isinstance(f, ast.FunctionDef) or f.name in gens:
+                    continue
+                # scope locals: X = self.G()
+                scope_vars: Dict[str, str] = {}
+                stack_attr: Dict[str, str] = {}
+                for s in f.body:
+                    if isinstance(s, ast.Assign) and len(s.targets) == 1 and isinstance(s.targets[0], ast.Name) and isinstance(s.value, ast.Call) \
+                            and isinstance(s.value.func, ast.Attribute) and isinstance(s.value.func.value, ast.Name) \
+                            and s.value.func.value.id == "self" and s.value.func.attr in gens and not s.value.args:
+                        scope_vars[s.targets[0].id] = s.value.func.attr
+                new_body: List[ast.stmt] = []
+                changed = False
+                for s in f.body:
+                    # X = self.G()
+                    if isinstance(s, ast.Assign) and len(s.targets) == 1 and isinstance(s.targets[0], ast.Name) and s.targets[0].id in scope_vars \
+                            and isinstance(s.value, ast.Call):
+                        changed = True
+                        continue
+                    # self.L.append(X)
+                    if isinstance(s, ast.Expr) and isinstance(s.value, ast.Call) and isinstance(s.value.func, ast.Attribute) \
+                            and s.value.func.attr == "append" and len(s.value.args) == 1 and isinstance(s.value.args[0], ast.Name) \
+                            and s.value.args[0].id in scope_vars and isinstance(s.value.func.value, ast.Attribute) \
+                            and isinstance(s.value.func.value.value, ast.Name) and s.value.func.value.value.id == "self":
+                        stack_attr[s.value.args[0].id] = s.value.func.value.attr
+                        continue
+                    # X.__enter__()
+                    if isinstance(s, ast.Expr) and isinstance(s.value, ast.Call) and isinstance(s.value.func, ast.Attribute) \
+                            and s.value.func.attr == "__enter__" and isinstance(s.value.func.value, ast.Name) \
+                            and s.value.func.value.id in scope_vars and s.value.func.value.id in stack_attr:
+                        x = s.value.func.value.id
+                        pre, post = gens[scope_vars[x]]
+                        live = live_of(pre, post)
+                        pushed = ast.Name(id=live[0], ctx=ast.Load()) if len(live) == 1 else ast.Tuple(
+                            elts=[ast.Name(id=v, ctx=ast.Load()) for v in live], ctx=ast.Load())
+                        push = ast.Expr(value=ast.Call(func=ast.Attribute(value=ast.Attribute(value=ast.Name(id="self", ctx=ast.Load()),
+                                                                                              attr=stack_attr[x], ctx=ast.Load()),
+                                                                          attr="append", ctx=ast.Load()), args=[pushed], keywords=[]))
+                        # the snapshot is pushed as soon as it is taken (before the writes of the entry part)
+                        cap_end = 0
+                        for i_, p_ in enumerate(pre):
+                            if stores([p_]) & set(live):
+                                cap_end = i_ + 1
+                        new_body += copy.deepcopy(pre[:cap_end]) + [push] + copy.deepcopy(pre[cap_end:])
+                        changed = True
+                        continue
+                    # self.L.pop().__exit__(None, None, None)
+                    if isinstance(s, ast.Expr) and isinstance(s.value, ast.Call) and isinstance(s.value.func, ast.Attribute) \
+                            and s.value.func.attr == "__exit__" and isinstance(s.value.func.value, ast.Call) \
+                            and isinstance(s.value.func.value.func, ast.Attribute) and s.value.func.value.func.attr == "pop" \
+                            and not s.value.func.value.args and len(gens) == 1 \
+                            and all(isinstance(a, ast.Constant) and a.value is None for a in s.value.args):
+                        gname = next(iter(gens))
+                        pre, post = gens[gname]
+                        live = live_of(pre, post)
+                        tgt = ast.Name(id=live[0], ctx=ast.Store()) if len(live) == 1 else ast.Tuple(
+                            elts=[ast.Name(id=v, ctx=ast.Store()) for v in live], ctx=ast.Store())
+                        pop = ast.Assign(targets=[tgt], value=s.value.func.value)
+                        new_body += [pop] + copy.deepcopy(post)
+                        changed = True
+                        continue
+                    new_body.append(s)
+                if changed:
+                    for s in new_body:
+                        for x in ast.walk(s):
+                            if not hasattr(x, "lineno"):
+                                ast.copy_location(x, f)
+                        ast.fix_missing_locations(s)
+                    f.body = new_body or [ast.copy_location(ast.Pass(), f)]
+                    applied.append(f"{mod}:{cls.name}.{f.name}: per-entry generator scope rewritten as the explicit stack protocol")
+            if any(cls.name in a for a in applied):
+                cls.body = [f for f in cls.body if not (isinstance(f, ast.FunctionDef) and f.name in gens)]
+    return applied
